@@ -70,19 +70,19 @@ type under struct {
 	viaStr  int
 	viaWr   int
 	badLen  int
-	extra   int // calls beyond one per scripted call
+	// A ProgressWriter may hand one call to the wrapped writer in several pieces. The script of call i says how
+	// many bytes of that call's input the wrapped writer accepts in total (k) and whether the piece on which
+	// that point is reached (and every later piece) also returns an error.
+	calls    []int  // wrapped calls made for script[i]
+	accepted []int  // bytes reported so far for script[i]
+	errSeen  []bool // some wrapped call of script[i] returned an error
+	pieces   int    // wrapped calls beyond the first per scripted call
 }
 
 func (u *under) do(l int, viaString bool) (int, error) {
 	// keyed on the call the writing goroutine announced, not on a running count: a ProgressWriter that does
 	// not forward a zero-length write must not shift the script
 	i := u.cur
-	if i < len(u.reached) {
-		if u.reached[i] {
-			u.extra++
-		}
-		u.reached[i] = true
-	}
 	if viaString {
 		u.viaStr++
 	} else {
@@ -91,21 +91,84 @@ func (u *under) do(l int, viaString bool) (int, error) {
 	if i >= len(u.script) {
 		return 0, errScripted
 	}
-	if l != u.script[i].n {
-		u.badLen++
+	u.reached[i] = true
+	first := u.calls[i] == 0
+	u.calls[i]++
+	op := u.script[i]
+	if first && l != op.n {
+		u.badLen++ // the call arrives in pieces (or altered)
 	}
-	if u.gated {
+	if !first {
+		u.pieces++
+	}
+	if u.gated && first {
 		select {
 		case u.entered <- i:
 		case <-u.aborted:
 		}
 		<-u.gate
 	}
-	if u.script[i].err {
-		return u.script[i].k, errScripted
+	var m int
+	hit := false
+	switch {
+	case op.k > op.n: // over-reporting wrapped writer: claims k on the first piece
+		if first {
+			m, hit = op.k, true
+		} else {
+			m = l
+		}
+	case u.accepted[i]+l >= op.k:
+		m, hit = op.k-u.accepted[i], true
+	default:
+		m = l
 	}
-	return u.script[i].k, nil
+	u.accepted[i] += m
+	if hit && op.err {
+		u.errSeen[i] = true
+		return m, errScripted
+	}
+	return m, nil
 }
+
+// payloads: slices of two shared buffers (the ProgressWriter and the wrapped writers only look at lengths)
+var payloadBytes = make([]byte, 6<<20)
+var payloadString = strings.Repeat("s", 6<<20)
+
+func bytePayload(n int) []byte {
+	if n <= len(payloadBytes) {
+		return payloadBytes[:n]
+	}
+	return make([]byte, n)
+}
+func strPayload(n int) string {
+	if n <= len(payloadString) {
+		return payloadString[:n]
+	}
+	return strings.Repeat("s", n)
+}
+
+// sizeClass: call sizes around the boundaries implementations care about
+func sizeClass(r *hk.Rng) int {
+	switch x := r.Intn(100); {
+	case x < 55:
+		return r.Intn(5)
+	case x < 70:
+		return r.Intn(1 << 16)
+	case x < 80:
+		return 4096 - 1 + r.Intn(3)
+	case x < 88:
+		return 65536 - 1 + r.Intn(3)
+	case x < 94:
+		return 1<<20 - 1 + r.Intn(3)
+	default:
+		return 1<<20 + r.Intn(4<<20)
+	}
+}
+
+// fullW accepts everything.
+type fullW struct{}
+
+func (fullW) Write(p []byte) (int, error) { return len(p), nil }
 
 type plainW struct{ u *under }
 
@@ -208,6 +271,9 @@ type result struct {
 	viaWr       int
 	retMismatch int
 	skipped     []bool
+	reported    []int // what the wrapped writer reported for each scripted call, summed over its pieces
+	reportedErr []bool
+	pieces      int
 	doubleClose string
 	skip        string // the run was abandoned (a bounded wait of the harness expired): an outcome, not a verdict
 	sizePolled  bool
@@ -239,7 +305,8 @@ var blockBound = time.Second
 
 // oneRun executes one scripted run. plan bits steer the slow consumer and the pauses.
 func oneRun(wk, ck int, script []opSpec, plan uint64) result {
-	u := &under{script: script, reached: make([]bool, len(script)), gated: wk == wPlainGated || wk == wStringGated,
+	u := &under{script: script, reached: make([]bool, len(script)), calls: make([]int, len(script)),
+		accepted: make([]int, len(script)), errSeen: make([]bool, len(script)), gated: wk == wPlainGated || wk == wStringGated,
 		entered: make(chan int, 1), gate: make(chan struct{}), aborted: make(chan struct{})}
 	var pw *ioutil.ProgressWriter
 	if wk == wPlainGated || wk == wPlainFree {
@@ -282,14 +349,14 @@ func oneRun(wk, ck int, script []opSpec, plan uint64) result {
 			var err error
 			u.cur = i
 			if op.str {
-				n, err = pw.WriteString(strings.Repeat("s", op.n))
+				n, err = pw.WriteString(strPayload(op.n))
 			} else {
-				n, err = pw.Write(make([]byte, op.n))
+				n, err = pw.Write(bytePayload(op.n))
 			}
 			if !u.reached[i] {
 				// the call was answered without asking the wrapped writer: nothing was reported for it
 				skipped[i] = true
-			} else if n != op.k || (err != nil) != op.err {
+			} else if n != u.accepted[i] || (err != nil) != u.errSeen[i] {
 				retBad++
 			}
 			sizes[i] = pw.Size()
@@ -519,9 +586,7 @@ func oneRun(wk, ck int, script []opSpec, plan uint64) result {
 			res.viol = fmt.Sprintf("call-%d-of-%d-bytes-returned-without-reaching-the-wrapped-writer", i, script[i].n)
 		}
 	}
-	if u.extra > 0 && res.viol == "" {
-		res.viol = fmt.Sprintf("wrapped-writer-called-%d-times-too-often", u.extra)
-	}
+	res.reported, res.reportedErr, res.pieces = u.accepted, u.errSeen, u.pieces
 	return res
 }
 
@@ -533,8 +598,8 @@ func caseFields(tag string, wk, ck int, script []opSpec, r result) []string {
 			sz = r.sizes[i]
 		}
 		k, er := op.k, op.err
-		if i < len(r.skipped) && r.skipped[i] {
-			k, er = 0, false // the wrapped writer was not asked: it reported nothing
+		if i < len(r.reported) {
+			k, er = r.reported[i], r.reportedErr[i] // what the wrapped writer really reported (0 if it was not asked)
 		}
 		f = append(f, b2s(op.str), strconv.Itoa(op.n), strconv.Itoa(k), b2s(er), strconv.Itoa(sz))
 	}
@@ -580,7 +645,8 @@ func parseCase(line string) (wk, ck int, script []opSpec, ok bool) {
 // was called. It must still receive the final total and then see the channel closed: Close waits.
 func veryLate(delay time.Duration) ([]opSpec, result) {
 	sc := []opSpec{{false, 3, 3, false}, {true, 4, 2, true}, {false, 5, 5, false}}
-	u := &under{script: sc, reached: make([]bool, len(sc)), aborted: make(chan struct{})}
+	u := &under{script: sc, reached: make([]bool, len(sc)), calls: make([]int, len(sc)),
+		accepted: make([]int, len(sc)), errSeen: make([]bool, len(sc)), aborted: make(chan struct{})}
 	pw := ioutil.NewProgressWriter(plainW{u})
 	res := result{skipped: make([]bool, len(sc))}
 	sizes := make([]int, len(sc))
@@ -589,9 +655,9 @@ func veryLate(delay time.Duration) ([]opSpec, result) {
 		for i, op := range sc {
 			u.cur = i
 			if op.str {
-				pw.WriteString(strings.Repeat("s", op.n))
+				pw.WriteString(strPayload(op.n))
 			} else {
-				pw.Write(make([]byte, op.n))
+				pw.Write(bytePayload(op.n))
 			}
 			sizes[i] = pw.Size()
 		}
@@ -647,8 +713,7 @@ recv:
 // completed call), the received values are non-decreasing and never exceed the bytes written so far, the last
 // one is the final total, then the channel is closed.
 func stress(n int) (viol string, received int) {
-	u := &under{script: []opSpec{{false, 1, 1, false}}, reached: make([]bool, 1), aborted: make(chan struct{})}
-	pw := ioutil.NewProgressWriter(plainW{u})
+	pw := ioutil.NewProgressWriter(fullW{})
 	var progress atomic.Int64
 	wdone := make(chan struct{})
 	go func() {
@@ -935,6 +1000,33 @@ func run(e *hk.Env) error {
 			}
 		}
 	}
+	// single huge calls (an implementation may hand them on in pieces): the wrapped writer stops at a point
+	// before, on or after the 4 KiB / 64 KiB / 1 MiB boundaries, with or without an error, while a consumer
+	// is receiving
+	for _, n := range []int{1<<20 + 1, 2 << 20, 3<<20 + 100, 5 << 20} {
+		for _, fp := range []int{n, 0, 1, 4096, 65536, 1<<20 - 1, 1 << 20, 1<<20 + 1, 1<<20 + 4096, 2 << 20, n - 1} {
+			if fp > n {
+				continue
+			}
+			for _, er := range []bool{false, true} {
+				for _, str := range []bool{false, true} {
+					sc := []opSpec{{false, 3, 3, false}, {str, n, fp, er}, {false, 2, 2, false}}
+					for _, wk := range []int{wPlainGated, wStringFree} {
+						for _, cp := range []struct {
+							ck   int
+							plan uint64
+						}{{cFast, ^uint64(0)}, {cSlow, 0xFFFFFFFF}} {
+							if viol >= maxViol {
+								break
+							}
+							emit(wk, cp.ck, sc, oneRun(wk, cp.ck, sc, cp.plan))
+							stats["huge_single_call_runs"]++
+						}
+					}
+				}
+			}
+		}
+	}
 	// random longer scripts
 	lenHist := map[int]int{}
 	for i := 0; i < nRandom && viol < maxViol; i++ {
@@ -945,10 +1037,7 @@ func run(e *hk.Env) error {
 		lenHist[l/8*8]++
 		sc := make([]opSpec, l)
 		for j := range sc {
-			n := r.Intn(5)
-			if r.Chance(20) {
-				n = r.Intn(1 << 16)
-			}
+			n := sizeClass(r)
 			op := opSpec{str: r.Bool(), n: n, k: n}
 			switch r.Intn(6) {
 			case 0: // short with error
